@@ -21,12 +21,15 @@ Step(e) ==
            ELSE IF ~e.wf THEN <<sta, {}>>           \* malformed input: only robustness is required
            ELSE LET r == Eval(e.prog, e.prm, sta) IN
                 <<r.sta, IF r.out = e.out THEN {}
+                         \* a deviation explained entirely by %s width/precision counted in characters is its own class
+                         ELSE IF EvalRuneFmt(e.prog, e.prm, sta).out = e.out
+                         THEN {Dev("C07.string_format_counts_characters", e.kind, [prog |-> e.prog, prm |-> e.prm, got |-> e.out, want |-> r.out])}
                          ELSE {Dev("C07.output", e.kind, [prog |-> e.prog, prm |-> e.prm, got |-> e.out, want |-> r.out])}>>
       [] e.ev = "TPuts" ->
            <<sta, (IF e.out = Strip(e.s) THEN {} ELSE {Dev("C15.tputs", "strip", [s |-> e.s, got |-> e.out, want |-> Strip(e.s)])})
                   \cup (IF e.panic THEN {Dev("C15.tputs", "panic", e.s)} ELSE {})>>
       [] e.ev = "Sleep" ->
-           <<sta, IF (e.pad /\ e.ms >= PadMillis(e.s)) \/ (~e.pad /\ e.ms < 100) THEN {}
+           <<sta, IF (e.pad /\ e.ms >= PadMillis(e.s)) \/ (~e.pad /\ 2 * e.ms < PadMillis(e.s)) THEN {}
                   ELSE {Dev("C15.sleep", IF e.pad THEN "too_short" ELSE "slept_without_pad", [s |-> e.s, ms |-> e.ms])}>>
       [] e.ev = "TGoto" ->
            LET want == GotoExpected(e.conv, e.col, e.row) IN
